@@ -8,16 +8,23 @@
    ImportFaithful, NoStaleState (a gap must raise), ObsReachFilter (exactly once),
    RunContinues (only MissingEphemerisError stops a run), ImporterReadOnly (rows and schema).
    The observation table is a BAG (a row may be stored twice: delivered once, the run goes on);
-   the importer file has the full schema or only the tables an importer reads.  Seven named
-   deviations must each yield a counterexample: CountBasedCheck (D9), SkipEpochWithoutRow,
-   LoadEveryEngine (D28), LoadOnlyOwnTargets, CrashOnDuplicate, KeepDuplicates,
+   the importer file has the full schema or only the tables an importer reads; the database may
+   hold records at instants that are NOT scenario epochs (inside the wall-clock second of a
+   scenario epoch, before / after it, or between steps: never used, never masking a gap); sensors
+   may share IDENTICAL coordinates (still two observations).  Nine named deviations must each
+   yield a counterexample: CountBasedCheck (D9), SkipEpochWithoutRow, LoadEveryEngine (D28),
+   LoadOnlyOwnTargets, MatchWholeSecond, DedupIgnoresSensor, CrashOnDuplicate, KeepDuplicates,
    CreateMissingTables.
 2. impl -> spec: a real realtime run produces a source database; importer databases are DERIVED
    from it with plain sqlite3 (exact copy; supersets with unrelated agents; subsets with a gap
    at a chosen epoch for a chosen registered agent, with and without unrelated extras; epochs
    removed ALTOGETHER - Epoch row and every record hanging on it: a hole, every other epoch, the
    tail of the run, everything; thinned observation rows; observation rows stored twice under a
-   new primary key; every table an importer never reads DROPPED + VACUUM) and the REAL scenario is run against
+   new primary key; every table an importer never reads DROPPED + VACUUM; Epoch / ephemeris /
+   observation rows at instants that are not scenario epochs - x.000 and x.625 for a scenario that
+   starts at x.250, half a step earlier - copied from the rows of the scenario epoch with an
+   offset state) and the REAL scenario (whole-second or fractional-second start; sensors a few
+   hundred metres apart or at identical coordinates) is run against
    each (targets imported / sensors imported / both; imported observations; one engine, two
    engines with the partition of the source run or ANOTHER one, so that the database holds
    observations whose sensor and target belong to different engines).  Per step the driver logs
@@ -79,10 +86,17 @@ def _base_cfg(fam, importer=False, mode=None, partition="family"):
     # minimal_init.json: one target (ISS) and sensors at shared sites (RTS MMW / RTS TRADEX are ~200 m apart, the MSSS
     # telescopes ~100 m); the greedy policy makes several sensors observe the same target at the same epoch, so the
     # importer's duplicate filter sees near-coincident but distinct observations
-    cfg = su.base_config(start=fam["start"], step=fam["step"], n_steps=fam["nsteps"], n_targets=1, n_sensors=fam["ns"],
+    from datetime import timedelta as _td
+    start = su.parse_iso(fam["start"]) + _td(milliseconds=fam.get("start_ms", 0))      # scenario epochs may carry fractional seconds
+    cfg = su.base_config(start=start, step=fam["step"], n_steps=fam["nsteps"], n_targets=1, n_sensors=fam["ns"],
                          decision="MyopicNaiveGreedyDecision", model="two_body", seed=3, template="minimal_init.json",
                          extra_targets=[su.target_cfg(50001 + i, sma_km=7100.0 + 200 * i, inc_deg=30.0 + 15 * i, ta_deg=40.0 * i)
                                         for i in range(fam["nt"] - 1)])
+    # sensors with IDENTICAL coordinates (two sensors of one facility configured with the same latitude / longitude / altitude)
+    for i, j in fam.get("colocate", []):
+        import copy as _copy
+        ss = cfg["engines"][0]["sensors"]
+        ss[j]["state"], ss[j]["platform"] = _copy.deepcopy(ss[i]["state"]), _copy.deepcopy(ss[i]["platform"])
     # several tasking engines: each loads imported observations in its own assess(); the run that reads the importer
     # database may partition the agents differently from the run that produced it
     if partition == "family":
@@ -132,6 +146,28 @@ def _derive(src, dst, var, fam):
     con = sqlite3.connect(dst)
     cur = con.cursor()
     jds = [r[0] for r in cur.execute("SELECT julian_date FROM epochs ORDER BY julian_date")]
+    # records at epochs that are NOT scenario epochs, copied (with a recognisable offset of the state) from the records of
+    # scenario epoch j: "before" / "after" = inside the same wall-clock second as epoch j (the scenario starts on a fractional
+    # second), "mid" = half a step earlier.  Made from the pristine copy: a later gap at epoch j leaves its second populated.
+    foreign = {}
+    if var.get("foreign"):
+        from datetime import datetime, timedelta
+        ms = fam.get("start_ms", 0)
+        shift = {"before": -ms / 1000.0, "after": (1000 - ms) / 2000.0, "mid": -fam["step"] / 2.0}
+        ecols = "agent_id, pos_x_km, pos_y_km, pos_z_km, vel_x_km_p_sec, vel_y_km_p_sec, vel_z_km_p_sec"
+        ocols = ", ".join(c[1] for c in cur.execute("PRAGMA table_info(observations)").fetchall() if c[1] not in ("id", "julian_date"))
+        stamps = dict(cur.execute("SELECT julian_date, timestampISO FROM epochs").fetchall())
+        for n, side in enumerate(var["foreign"]):
+            for j, jd in enumerate(jds):
+                if shift[side] == 0 or (side == "mid" and j == 0):
+                    continue
+                when = datetime.fromisoformat(stamps[jd]) + timedelta(seconds=shift[side])
+                fjd = jd + shift[side] / 86400.0
+                cur.execute("INSERT INTO epochs (julian_date, timestampISO) VALUES (?, ?)", (fjd, when.isoformat(timespec="microseconds")))
+                cur.execute(f"INSERT INTO truth_ephemerides (julian_date, {ecols}) SELECT ?, {ecols.replace('pos_x_km', 'pos_x_km + ' + str(0.125 * (n + 1)), 1)} "
+                            "FROM truth_ephemerides WHERE julian_date = ?", (fjd, jd))
+                cur.execute(f"INSERT INTO observations (julian_date, {ocols}) SELECT ?, {ocols} FROM observations WHERE julian_date = ?", (fjd, jd))
+                foreign[fjd] = (j, side)
     for n, uid in enumerate(UNRELATED[:var.get("extras", 0)]):
         cur.execute("INSERT INTO agents (unique_id, name) VALUES (?, ?)", (uid, f"unrelated{n}"))
         for j, jd in enumerate(jds):
@@ -171,6 +207,7 @@ def _derive(src, dst, var, fam):
         con.commit()
         con.execute("VACUUM")
     con.close()
+    return foreign
 
 
 def _schema(path):
@@ -189,21 +226,27 @@ def _epoch_keys(path):
     return jds
 
 
-def _importer_tables(path, src_jds):
-    """(rows {(agent, k): 6-tuple}, obs [(k, t, s)], epochs [k]) read with plain sqlite3; k = step index in the SOURCE run."""
+def _importer_tables(path, src_jds, foreign=None):
+    """(rows {(agent, k): 6-tuple}, obs [(k, t, s)], epochs [k], frows {(agent, j, side): 6-tuple}) read with plain sqlite3;
+    k = step index in the SOURCE run; `foreign` maps the Julian dates that are not scenario epochs to (j, side)."""
+    foreign = foreign or {}
     con = sqlite3.connect(path)
     cur = con.cursor()
     kof = {jd: i for i, jd in enumerate(src_jds)}
-    epochs = sorted(kof[r[0]] for r in cur.execute("SELECT julian_date FROM epochs"))
-    rows = {}
+    epochs = sorted(kof[r[0]] for r in cur.execute("SELECT julian_date FROM epochs") if r[0] not in foreign)
+    rows, frows = {}, {}
     for r in cur.execute("SELECT julian_date, agent_id, pos_x_km, pos_y_km, pos_z_km, vel_x_km_p_sec, vel_y_km_p_sec, vel_z_km_p_sec "
                          "FROM truth_ephemerides"):
-        rows[(int(r[1]), kof[r[0]])] = tuple(float(x) for x in r[2:])
+        if r[0] in foreign:
+            frows[(int(r[1]),) + foreign[r[0]]] = tuple(float(x) for x in r[2:])
+        else:
+            rows[(int(r[1]), kof[r[0]])] = tuple(float(x) for x in r[2:])
     obs = []
     if cur.execute("SELECT count(*) FROM sqlite_master WHERE type = 'table' AND name = 'observations'").fetchone()[0]:
-        obs = [(kof[r[0]], int(r[1]), int(r[2])) for r in cur.execute("SELECT julian_date, target_id, sensor_id FROM observations")]
+        obs = [(kof[r[0]], int(r[1]), int(r[2])) for r in cur.execute("SELECT julian_date, target_id, sensor_id FROM observations")
+               if r[0] not in foreign]
     con.close()
-    return rows, obs, epochs
+    return rows, obs, epochs, frows
 
 
 def _run_variant(fam, var, src, workdir):
@@ -215,8 +258,10 @@ def _run_variant(fam, var, src, workdir):
     from resonaate.parallel import estimate_update as eu
     from resonaate.tasking.engine.centralized_engine import CentralizedTaskingEngine
     dst = os.path.join(workdir, f"imp_{var['name']}.sqlite3")
-    _derive(src, dst, var, fam)
-    rows, obs, epochs = _importer_tables(dst, _epoch_keys(src))
+    foreign = _derive(src, dst, var, fam)
+    src_jds = _epoch_keys(src)
+    rows, obs, epochs, frows = _importer_tables(dst, src_jds, foreign)
+    step_of = {jd: i for i, jd in enumerate(src_jds)}
     before, schema_before = _sha(dst), _schema(dst)
     from collections import Counter
     n_obs = Counter(o for o in obs if o[0] >= 1)
@@ -224,6 +269,8 @@ def _run_variant(fam, var, src, workdir):
     tids = list(dict.fromkeys(t["id"] for e in cfg["engines"] for t in e["targets"]))
     sids = [s["id"] for e in cfg["engines"] for s in e["sensors"]]
     engines = [[int(e["unique_id"]), [s["id"] for s in e["sensors"]], [t["id"] for t in e["targets"]]] for e in cfg["engines"]]
+    # sensors with identical configured coordinates share a site number
+    sites = {s["id"]: json.dumps([s["platform"], s["state"]], sort_keys=True) for e in cfg["engines"] for s in e["sensors"]}
     born = {}
     if fam.get("add_at"):
         from harness.drivers import c01
@@ -240,6 +287,8 @@ def _run_variant(fam, var, src, workdir):
               "obs": sorted([k, A(t), A(s)] for (k, t, s) in n_obs),
               "dup": sorted([k, A(t), A(s)] for (k, t, s), n in n_obs.items() if n > 1),
               "schema": "minimal" if var.get("drop_tables") else "full",
+              "near": sorted([A(a), j, side] for (a, j, side) in frows if j >= 1),
+              "sites": [[A(i), min(n for n, j in enumerate(sids) if sites[j] == sites[i])] for i in sids],
               "engines": [[e, [A(i) for i in ss], [A(i) for i in tt]] for e, ss, tt in engines],
               "nsteps": fam["nsteps"], "born": [[A(i), born.get(i, 0)] for i in tids + sids]}]
     state = {"k": 0, "raised": False, "updates": {}}
@@ -248,6 +297,11 @@ def _run_variant(fam, var, src, workdir):
     orig_load = CentralizedTaskingEngine.loadImportedObservations
 
     def kof(o):
+        jd = float(o.julian_date)
+        if jd in step_of:
+            return step_of[jd]
+        if jd in foreign:
+            return 1000 + foreign[jd][0]          # an observation of an epoch that is not a scenario epoch
         return int(round((float(o.julian_date) - float(state["app"].clock.julian_date_start)) * 86400.0 / fam["step"]))
 
     def load(self, datetime_epoch):
@@ -270,8 +324,11 @@ def _run_variant(fam, var, src, workdir):
                 auth = state["app"].clock.datetime_start + timedelta(seconds=state["k"] * fam["step"])
                 want = eci2ecef(np.asarray(ag.eci_state, float), auth)
                 derived_ok = bool(np.linalg.norm(np.asarray(ag.ecef_state, float)[:3] - want[:3]) < 1e-3)
+            fmatch = [j for (a, j, side), v in frows.items() if a == aid and v == cur]
             if match:
                 out.append([A(aid), "import", max(match), derived_ok])
+            elif fmatch:
+                out.append([A(aid), "foreign", max(fmatch), derived_ok])     # the record of an epoch that is not a scenario epoch
             else:
                 out.append([A(aid), "init" if state["k"] == 0 else "unknown", 0, derived_ok])
         return out
@@ -435,6 +492,35 @@ def make_families(ctx: Ctx, rng):
         variants.append({"name": "hole2_gap3_ts", "mode": "ts", "drop_epochs": [2], "gaps": [["t", 0, 3]]})
         variants.append({"name": "gap1_hole3_t", "mode": "t", "drop_epochs": [3], "gaps": [["t", 0, 1]], "extras": 2})
         fams.append({"start": start, "step": step, "nsteps": n, "nt": 2, "ns": 4, "variants": variants})
+    # scenario epochs with FRACTIONAL seconds (start x.250, whole-second steps) against importer databases that also hold
+    # records at instants that are not scenario epochs: inside the same wall-clock second (x.000 before, x.625 after), half a
+    # step earlier; with gaps / holes at the real epochs whose second stays populated; a database holding ONLY the others
+    specs = [("2018-12-01T12:00:00", 250, 60, 4)] + ([] if ctx.quick else [("2019-12-31T23:58:07", 500, 300, 4), ("2020-02-29T23:59:30", 750, 7, 5)])
+    for start, ms, step, n in specs:
+        variants = [{"name": "sub_exact_ts", "mode": "ts"},
+                    {"name": "sub_before_t", "mode": "t", "foreign": ["before"]},
+                    {"name": "sub_before_tso", "mode": "tso", "foreign": ["before"], "extras": 1},
+                    {"name": "sub_after_s", "mode": "s", "foreign": ["after"]},
+                    {"name": "sub_all_o", "mode": "o", "foreign": ["before", "after", "mid"]},
+                    {"name": "sub_before_gap_t3_t", "mode": "t", "foreign": ["before"], "gaps": [["t", 0, 3]]},
+                    {"name": "sub_before_gap_t2_ts_extras", "mode": "ts", "foreign": ["before"], "gaps": [["t", -1, 2]], "extras": 2},
+                    {"name": "sub_after_gap_s2_s", "mode": "s", "foreign": ["after"], "gaps": [["s", 0, 2]]},
+                    {"name": "sub_mid_gap_t2_t", "mode": "t", "foreign": ["mid"], "gaps": [["t", 0, 2]]},
+                    {"name": "sub_both_hole2_ts", "mode": "ts", "foreign": ["before", "after"], "drop_epochs": [2]},
+                    {"name": "sub_only_foreign_t", "mode": "t", "foreign": ["before"], "drop_epochs": list(range(1, n + 1))}]
+        if not ctx.quick:
+            variants += [{"name": f"sub_{side}_gap_{kind}{j}_{mode}", "mode": mode, "foreign": [side], "gaps": [[kind, 0, j]]}
+                         for side in ("before", "after") for j in range(1, n + 1) for kind, mode in (("t", "ts"), ("s", "tso"))]
+        fams.append({"start": start, "start_ms": ms, "step": step, "nsteps": n, "nt": 2, "ns": 4, "variants": variants})
+    # two sensors with IDENTICAL coordinates observing the same target at the same epoch: two observations, both must arrive
+    # (one engine: sensors 0 and 1 share a site; two engines: sensors 0 and 2, one per engine, and sensors 0 and 1 in one engine)
+    fams.append({"start": "2018-12-01T12:00:00", "step": 60, "nsteps": 3, "nt": 2, "ns": 4, "colocate": [[0, 1]],
+                 "variants": [{"name": "colo_exact_o", "mode": "o"}, {"name": "colo_exact_tso", "mode": "tso"},
+                              {"name": "colo_thin_obs3_ts", "mode": "ts", "drop_obs": 3},
+                              {"name": "colo_split_o", "mode": "o", "partition": "split"}]})
+    fams.append({"start": "2018-12-01T12:00:00", "step": 60, "nsteps": 3, "nt": 2, "ns": 4, "colocate": [[0, 2]], "src_partition": "split",
+                 "variants": [{"name": "colo2eng_exact_o", "mode": "o"}, {"name": "colo2eng_shared_tso", "mode": "tso", "partition": "shared"},
+                              {"name": "colo2eng_one_engine_o", "mode": "o", "partition": None}]})
     # a target added mid-run by an event while targets are imported: it must be registered with the importer as well
     fams.append({"start": "2018-12-01T12:00:00", "step": 60, "nsteps": 4, "nt": 1, "ns": 2, "add_at": 2,
                  "variants": [{"name": "exact_t_added", "mode": "t"}, {"name": "superset_ts_added", "mode": "ts", "extras": 2},
@@ -465,7 +551,8 @@ def run(ctx: Ctx):
     ctx.rule = ("one case = one real run against one derived importer database (mode t/s/o = targets / sensors / observations "
                 "imported; exact, superset, gap at (agent, epoch) with or without unrelated extras, whole epochs absent from the database "
                 "- hole / every other epoch / tail / all -, thinned observations, observation rows stored twice, importer files holding "
-                "only the tables an importer reads; one engine, two engines partitioned as in the "
+                "only the tables an importer reads, records at instants that are not scenario epochs (fractional-second start), "
+                "sensors with identical coordinates; one engine, two engines partitioned as in the "
                 "source run or differently: cross-engine observations, shared targets); "
                 "non-trivial = anything but the exact copy; distinct by (family, variant)")
     ctx.assumptions = ["importer databases are derived from a real output database with plain sqlite3",
@@ -484,6 +571,8 @@ def run(ctx: Ctx):
           ("MCImporter_skipepoch.cfg", {"ImportFaithful", "NoStaleState"}),
           ("MCImporter_everyengine.cfg", {"ObsReachFilter"}),
           ("MCImporter_owntargets.cfg", {"ObsReachFilter"}),
+          ("MCImporter_wholesecond.cfg", {"ImportFaithful", "NoStaleState"}),
+          ("MCImporter_dedupsite.cfg", {"ObsReachFilter"}),
           ("MCImporter_crashdup.cfg", {"RunContinues"}),
           ("MCImporter_keepdup.cfg", {"ObsReachFilter"}),
           ("MCImporter_createtables.cfg", {"ImporterReadOnly"})]
@@ -492,8 +581,10 @@ def run(ctx: Ctx):
     dirs = {name: ctx.sub(name[:-4]) for name, _ in mc}
     # TLC runs and scenario families share one process pool (no threads in this process: forking a process that runs
     # threads can dead-lock the children); the long jobs go first
-    with ProcessPoolExecutor(max_workers=min(ctx.cpus, len(fams) + len(mc), 12)) as ex:
-        futs = [ex.submit(_run_mc, name, str(dirs[name]), ctx.cpus if not expect and not ctx.quick else w, not expect) for name, expect in mc]
+    with ProcessPoolExecutor(max_workers=min(ctx.cpus, len(fams) + len(mc), 14)) as ex:
+        # the deviation runs are small (they stop at the first counterexample): two workers each
+        futs = [ex.submit(_run_mc, name, str(dirs[name]), 2 if expect else (max(4, ctx.cpus // 2) if ctx.quick else ctx.cpus), not expect)
+                for name, expect in mc]
         results = list(ex.map(_run_family, sorted(fams, key=lambda f: -len(f["variants"]))))
         tlc_results = [f.result() for f in futs]
     for (name, expect), res in zip(mc, tlc_results):
@@ -557,6 +648,7 @@ def run(ctx: Ctx):
         if not ok:
             ev = traces[i][pos - 1] if pos <= len(traces[i]) else {}
             kind = "absent-epoch" if var.get("drop_epochs") else "gap" if var.get("gaps") else ("thinobs" if var.get("drop_obs") else "complete")
+            kind = ("subsecond-epochs+" if c0["near"] or fam.get("start_ms") else "") + ("colocated-sensors+" if fam.get("colocate") else "") + kind
             kind = ("dup-obs+" if c0["dup"] else "") + ("minimal-schema+" if var.get("drop_tables") else "") + kind
             if len(c0["engines"]) > 1:
                 kind += "+cross-engine-obs" if cross else "+several-engines"
